@@ -32,7 +32,7 @@ for pid in sorted(reg["properties"]):
         "; ".join("%s%s" % (k["id"], " (thorough)" if k.get("tier") == "thorough" else "") for k in nat) or "-",
         p.get("not_decided", "")))
 status = "\n".join(rows)
-status += "\n\nNot applicable (MANIFEST `not_applicable`, reasons there and in Part II section 4): C02, C03, C16, C19.  (C05, C13 and C18, listed as not applicable in Part II, are claimed since the units `rollback`, `compact` and `gapcheck` / `splice` exist - see I.7.)\n"
+status += "\n\nNot applicable (MANIFEST `not_applicable`, reasons there and in Part II section 4): C03, C16, C19.  (C02, C05, C13 and C18, listed as not applicable in Part II, are claimed since the units `freeuntil`, `rollback`, `compact` and `gapcheck` / `splice` exist - see I.7.)\n"
 seen = []
 for p in reg["properties"].values():
     for a in p.get("assumptions", []):
